@@ -1,9 +1,12 @@
 (* Properties_C06.v — C06: a body is decoded only by the consumer of an admitted media type, else 415.
    Theorems only. gate_typed = Context.BindValidRequest, gate_untyped = validation.contentType (BindAndValidate);
-   arguments: the request carries a body (runtime.HasBody), the media type runtime.ContentType parsed from the header
-   (None = unparsable; second copy = the answer when validateContentType parses it again, equal by idempotence of the
-   parser, checked on every case), the route's consumes list, the media types with a registered consumer.
-   outcome g = (status of the first error if any, consumer that decodes the body if any). *)
+   arguments: the request carries a body (runtime.HasBody), the media type mime.ParseMediaType answers for the first
+   Content-Type line as it stands, or for application/octet-stream when there is none (None = unparsable; second copy =
+   the answer when validateContentType parses it again, equal by idempotence of the parser, checked on every case),
+   the route's consumes list, the media types with a consumer in the route's table.
+   outcome g = (status of the first error if any, consumer that decodes the body if any).
+   The C06_route_ theorems start from what the API author wrote (declared list, API default, consumers registered on
+   the API): add_route_consumes = AddRoute, route_consumers = ConsumersFor(normalizeOffers(consumes)). *)
 From V Require Import GateSpec GateProofs.
 
 Theorem C06_typed_gate_is_expected : forall hasbody parse consumes keys,
@@ -49,3 +52,45 @@ Theorem C06_default_admitted : forall declared default,
   default <> [] -> strip_params default = default -> admitted (add_route_consumes declared default) default = true.
 Proof. exact default_admitted. Qed.
 Print Assumptions C06_default_admitted.
+
+(* AddRoute, the consumer table and the gate, end to end: for lists spelled in lower case the outcome is the
+   specification over the declared list plus the default and the consumers registered on the API *)
+Theorem C06_route_typed_gate_is_expected : forall hasbody parse declared default registered,
+  all_lower declared = true -> lower default = default ->
+  outcome (gate_typed hasbody parse parse (add_route_consumes declared default)
+                      (route_consumers (add_route_consumes declared default) registered))
+  = expected_route hasbody parse declared default registered.
+Proof. exact route_typed_expected. Qed.
+Print Assumptions C06_route_typed_gate_is_expected.
+
+Theorem C06_route_untyped_gate_is_expected : forall hasbody parse declared default registered,
+  parse <> Some [] -> all_lower declared = true -> lower default = default ->
+  outcome (gate_untyped hasbody parse parse (add_route_consumes declared default)
+                        (route_consumers (add_route_consumes declared default) registered))
+  = expected_route hasbody parse declared default registered.
+Proof. exact route_untyped_expected. Qed.
+Print Assumptions C06_route_untyped_gate_is_expected.
+
+(* the API default is named by an entry of every consumes list AddRoute builds (not merely admitted by a wildcard) *)
+Theorem C06_default_listed : forall declared default,
+  default <> [] -> strip_params default = default -> listed_ci (add_route_consumes declared default) default = true.
+Proof. exact default_listed. Qed.
+Print Assumptions C06_default_listed.
+
+(* a body of the API default media type is decoded by the consumer registered for it on the API, whatever the
+   operation declares *)
+Theorem C06_default_consumer_decodes : forall declared default registered,
+  default <> [] -> strip_params default = default -> In default registered ->
+  expected_route true (Some default) declared default registered = (None, Some default).
+Proof. exact default_consumer_decodes. Qed.
+Print Assumptions C06_default_consumer_decodes.
+
+(* runtime.ContentType hands the first header line, unchanged, to the parser; the default when absent or empty *)
+Theorem C06_content_type_first_line : forall pmt v rest, content_type pmt (v :: rest) = content_type pmt [v].
+Proof. exact content_type_first_line. Qed.
+Print Assumptions C06_content_type_first_line.
+
+Theorem C06_content_type_absent : forall pmt,
+  content_type pmt [] = pmt default_mime /\ content_type pmt [[]] = pmt default_mime.
+Proof. exact content_type_absent. Qed.
+Print Assumptions C06_content_type_absent.
